@@ -265,7 +265,8 @@ def profile_for(pid, tier):
         G["static_kw"] = 0.5
     elif pid == "C22":
         G["root_kinds"] = {"static": 6, "vmap": 1, "scan": 1, "closure": 1}
-        G["addr_styles"] = {"str": 3, "tuple": 3, "mixed": 0}
+        G["addr_styles"] = {"str": 3, "tuple": 3, "mixed": 1}
+        P["allowed_features"] = ["mixed_addr"]
         P["ops"].update({"abort": 5})
     elif pid == "C06":
         P["ops"].update({"undo": 8, "update": 6, "regenerate": 4, "index_edit": 3, "static_edit": 2})
